@@ -214,7 +214,7 @@ pub fn run(ctx: &Ctx) -> i32 {
                                 acc.violation(Violation {
                                     property: "C06".into(),
                                     signature: kind.into(),
-                                    what: format!("two runs of the same problem differ: {:?} vs {:?}", &f[..f.len().min(200)], &o[..o.len().min(200)]),
+                                    what: format!("two runs of the same problem differ: {:?} vs {:?}", f.chars().take(200).collect::<String>(), o.chars().take(200).collect::<String>()),
                                     replay: json!({"kind": "c06", "case": case, "seeds": seed_list, "hint_all": hi == 1, "universe": case.u.describe(&case.p)}),
                                     order: (fi, idx, hi as u32),
                                 });
